@@ -1,5 +1,13 @@
-"""Thorough-only extras for C19 (Miri, ThreadSanitizer)."""
+"""Thorough-only extras for C19: Miri (UB, data races, a sixth 'build' to compare with) and
+ThreadSanitizer on an instrumented std."""
+import sanit
 
 
-def run(root, env, builds, build, seed, scale, inconclusive, violations_sink):
-    return {}
+def run(drv, seed):
+    extra, viol, inc = {}, [], []
+    for fn in (lambda: sanit.miri(drv, "C19", seed, nproc=12, per=40, many_seeds=4), lambda: sanit.tsan(drv, seed)):
+        e, v, i = fn()
+        extra.update(e)
+        viol += v
+        inc += i
+    return extra, viol, inc
